@@ -1,7 +1,8 @@
 use poulpy_hal::{
     api::{
         ModuleN, ScratchAvailable, ScratchTakeBasic, SvpApplyDftToDftAssign, VecZnxBigAddAssign, VecZnxBigAddSmallAssign,
-        VecZnxBigBytesOf, VecZnxBigNormalize, VecZnxDftApply, VecZnxDftBytesOf, VecZnxIdftApplyConsume, VecZnxNormalizeTmpBytes,
+        VecZnxBigBytesOf, VecZnxBigNormalize, VecZnxBigNormalizeTmpBytes, VecZnxDftApply, VecZnxDftBytesOf,
+        VecZnxIdftApplyConsume, VecZnxNormalizeTmpBytes,
     },
     layouts::{Backend, DataViewMut, Module, Scratch},
 };
@@ -23,6 +24,7 @@ pub(crate) trait GLWEDecryptDefault<BE: Backend>:
     + VecZnxBigAddAssign<BE>
     + VecZnxBigAddSmallAssign<BE>
     + VecZnxBigNormalize<BE>
+    + VecZnxBigNormalizeTmpBytes
 where
     Scratch<BE>: ScratchTakeBasic + ScratchAvailable,
 {
@@ -34,7 +36,11 @@ where
         assert_eq!(self.n() as u32, infos.n());
 
         let lvl_0: usize = self.bytes_of_vec_znx_big(1, size);
-        let lvl_1: usize = self.bytes_of_vec_znx_dft(1, size).max(self.vec_znx_normalize_tmp_bytes());
+        // the final step is a big-normalisation, whose scratch need differs per backend
+        let lvl_1: usize = self
+            .bytes_of_vec_znx_dft(1, size)
+            .max(self.vec_znx_normalize_tmp_bytes())
+            .max(self.vec_znx_big_normalize_tmp_bytes());
 
         lvl_0 + lvl_1
     }
@@ -107,7 +113,8 @@ where
         + VecZnxIdftApplyConsume<BE>
         + VecZnxBigAddAssign<BE>
         + VecZnxBigAddSmallAssign<BE>
-        + VecZnxBigNormalize<BE>,
+        + VecZnxBigNormalize<BE>
+        + VecZnxBigNormalizeTmpBytes,
     Scratch<BE>: ScratchTakeBasic + ScratchAvailable,
 {
 }
